@@ -97,7 +97,7 @@ func TestC15_VerifyEndpoint(t *testing.T) {
 			s = "1" + text
 		case "edit":
 			rs := []rune(text)
-			rs[rapid.IntRange(0, len(rs)-1).Draw(t, "pos")] = rapid.SampledFrom([]rune(c15Alphabet + "0OIl")).Draw(t, "ch")
+			rs[rapid.IntRange(0, len(rs)-1).Draw(t, "pos")] = rapid.SampledFrom([]rune(c15Alphabet+"0OIl")).Draw(t, "ch")
 			s = string(rs)
 		case "version":
 			body := append(append([]byte{}, key[:]...), byte(rapid.IntRange(1, 255).Draw(t, "ver")))
